@@ -121,6 +121,16 @@ CHECKS = {
         note="Trusted: state is reloaded from canonical values as literal text and from recorded function sources; the active module "
              "is restored; self-bound symbols count as undefined; statements reading never-assigned names are not minimised into.",
         design="3/C04"),
+    "C09": dict(
+        category="exploration",
+        technique="exhaustive enumeration of Python callable signature shapes x kinds x call forms with a recorded call log as oracle, plus Hypothesis-generated wrapper histories (redefinition / deletion / re-creation) against the Klong call as reference",
+        text="Every documented signature shape (and permutations, optional klong parameter) as lambda / def / bound method / .py import "
+             "is applied through direct, alias, projection, each, each-2, over and @ forms: the call log must hold one entry per "
+             "application with the evaluated arguments in positional order and the return value must be the result. Wrapper histories "
+             "compare klong[name](*args) with name(a;b;c) on the current definition, incl. wrong argument counts. Exhaustive for the "
+             "callable part, exploration for histories.",
+        note="Trusted: recorded call log; Klong lists are numpy arrays (bare Python lists are programs to klongpy and are not used as data).",
+        design="3/C09"),
 }
 
 NOT_APPLICABLE = {
